@@ -4,7 +4,7 @@ use super::PropResult;
 use crate::core::*;
 use crate::model::calendar as cal;
 use crate::model::instant::*;
-use astrolabe::{Date, DateTime, DateUtilities, OffsetUtilities};
+use astrolabe::{Date, DateTime, DateUtilities};
 use serde_json::{json, Value};
 
 pub const OPS: [(&str, i64, i64); 4] = [("add_months", 1, 1), ("sub_months", -1, 1), ("add_years", 1, 12), ("sub_years", -1, 12)];
